@@ -7,7 +7,10 @@ import itertools
 import numbers
 import collections
 
+import sympy
+
 from qupulse.utils.types import ChannelID, FrozenDict, FrozenMapping
+from qupulse.utils.sympy import rename_clashing_bound_symbols
 from qupulse.expressions import Expression, ExpressionScalar
 from qupulse.parameter_scope import Scope, MappedScope
 from qupulse.pulses.pulse_template import PulseTemplate, MappingTuple
@@ -206,7 +209,11 @@ class MappingPulseTemplate(PulseTemplate, ParameterConstrainer):
 
     @property
     def duration(self) -> Expression:
-        return self.__template.duration.evaluate_symbolic(
+        duration = self.__template.duration
+        renamed = self._rename_clashing_bound_symbols(duration)
+        if renamed is not duration.sympified_expression:
+            duration = ExpressionScalar(renamed)
+        return duration.evaluate_symbolic(
             {parameter_name: expression.underlying_expression
              for parameter_name, expression in self.__parameter_mapping.items()}
         )
@@ -333,12 +340,22 @@ class MappingPulseTemplate(PulseTemplate, ParameterConstrainer):
             measurement_mapping=self.get_updated_measurement_mapping(measurement_mapping=measurement_mapping)
         )
 
+    def _rename_clashing_bound_symbols(self, inner_expression: ExpressionScalar) -> sympy.Expr:
+        """The sympified inner expression prepared for the substitution of the parameter mapping: if a mapped-in
+        expression mentions a name that is bound in the inner expression (the summation index of a ForLoopPT's integral
+        or duration has the name of the loop index) that bound symbol is renamed. Otherwise it would capture the name
+        which refers to a parameter of this template."""
+        mapped_in = set()
+        for expression in self.__parameter_mapping.values():
+            mapped_in.update(expression.sympified_expression.free_symbols)
+        return rename_clashing_bound_symbols(inner_expression.sympified_expression, mapped_in)
+
     def _apply_mapping_to_inner_channel_dict(self, to_map: Dict[ChannelID, ExpressionScalar]) -> Dict[ChannelID, ExpressionScalar]:
         parameter_mapping = {parameter_name: expression.underlying_expression
                              for parameter_name, expression in self.__parameter_mapping.items()}
         return {
-            self.__channel_mapping.get(ch, ch): ExpressionScalar(ch_expr.sympified_expression.subs(parameter_mapping,
-                                                                                                   simultaneous=True))
+            self.__channel_mapping.get(ch, ch): ExpressionScalar(
+                self._rename_clashing_bound_symbols(ch_expr).subs(parameter_mapping, simultaneous=True))
             for ch, ch_expr in to_map.items()
             if self.__channel_mapping.get(ch, ch) is not None
         }
